@@ -76,7 +76,7 @@ def kept_long_files(rng):
 class C09(PropBase):
     pid = "C09"
     coq_dirs = ["Base", "Gen", "C08", "C11", "C09"]
-    translators = ["symfile_loop.py", "c09_circular_mem.py"]
+    translators = ["symfile_loop.py", "c09_circular_mem.py", "c09_numeric.py"]
     bins = ["c09"]
     impl_timeout = 600
     rule = ("case = input bytes (run-length encoded) + reader schedule; inputs: grammar-generated files with every record kind, "
@@ -117,10 +117,20 @@ class C09(PropBase):
                 "read off parse_more's source, c09_trim_is_source); on Ok the callback has received the whole input byte for byte "
                 "(c09_ok_callback_is_whole_input). Oracle additions: a byte >= 0x80 in any numeric field must be rejected without a panic "
                 "(tag bad); sub-records anywhere relative to their group's address range must parse (tag ok); a record on a line of at "
-                "most 80 KiB is never dropped (FILE count of the table, tag keep<N>).",
+                "most 80 KiB is never dropped (FILE count of the table, tag keep<N>). "
+                "Round 5, second pass: finish composed with C08 - for every byte string and schedule (and for every sequence of recognised / "
+                "dropped lines replayed from the initial parser state) every (start, end) pair handed to Range::new while finish runs (line "
+                "records, memory_range() of FUNC / STACK CFI INIT / STACK WIN records, the STACK WIN record shortened by "
+                "insert_win_stack_info) has 0 <= start <= end < 2^64, and the five range maps of the table (functions, each function's line "
+                "table, CFI, STACK WIN frame data / fpo) are strictly sorted and pairwise disjoint (c09_table_ranges_ordered, "
+                "c09_finish_ranges_ordered). hex_str::<u32>/<u64> and decimal_u32 are COMPILED from parser.rs by a third translator "
+                "(statement by statement, checked operators of both profiles, the slice site &input[k..]) and proved, for every byte list "
+                "and both profiles, panic-free and equal to the number recognisers of the model (c09_numeric_helpers_are_source); what they "
+                "accept is stated declaratively: the longest prefix of at most 8 / 16 / 10 digit bytes, non-empty, positional value, "
+                "decimal values above u32::MAX rejected, a byte >= 0x80 never a digit (c09_numeric_grammar).",
         "note": "Trusted: Coq kernel; hand-written models of mod.rs, parser.rs and of circular 0.3.0 (indices and, since round 5, memory: "
                 "ptr::copy read as memmove, Vec::resize as append of the fill value) - correspondence-checked (events, space() contents, "
-                "callback bytes), pinned by two translators + proofs, not verified against rustc semantics. No axioms.",
+                "callback bytes), pinned by three translators + proofs, not verified against rustc semantics. No axioms.",
     }
     assumptions = ["the byte-level model of circular::Buffer (coq/C09/Circular.v) reads ptr::copy as memmove and Vec::resize as appending the fill "
                    "value; the FIFO behaviour of data() is proved from that (c09_buffer_refines_fifo), and checked on every case by comparing "
